@@ -429,6 +429,19 @@ impl Leg for Sessions {
     }
 }
 
+/// one Python iterator object driven by a script (next / for-with-break / list / iter, calls after the end)
+pub struct PySessions;
+impl Leg for PySessions {
+    type Case = super::pysessions::PySession;
+    const NAME: &'static str = "python-call-histories";
+    fn strategy(_tier: Tier) -> BoxedStrategy<Self::Case> {
+        super::pysessions::strategy(true)
+    }
+    fn check(c: &Self::Case) -> Verdict {
+        super::pysessions::check(c)
+    }
+}
+
 pub fn run(ctx: &mut Ctx) {
     let ns = ctx.share(ctx.tier.pick(8_000, 160_000));
     ctx.run_leg::<Sessions>(ns, false, 400);
@@ -440,6 +453,8 @@ pub fn run(ctx: &mut Ctx) {
     if far_enabled(ctx) {
         ctx.run_leg::<Far>(2, false, 0);
     }
+    let np = ctx.share(ctx.tier.pick(6_000, 120_000));
+    ctx.run_leg::<PySessions>(np, false, 300);
     let nt = ctx.share(ctx.tier.pick(1_600, 30_000));
     ctx.run_leg::<Temporaries>(nt, false, 200);
     let n = ctx.share(ctx.tier.pick(64, 1_600));
@@ -467,6 +482,7 @@ pub fn replay(leg: &str, case: &serde_json::Value) -> Option<Result<Verdict, Str
         "exhaustive" | "random" => Some(crate::engine::replay_leg::<Random>(case)),
         "python" => Some(crate::engine::replay_leg::<Python>(case)),
         "giant-windows" => Some(crate::engine::replay_leg::<GiantLib>(case)),
+        "python-call-histories" => Some(crate::engine::replay_leg::<PySessions>(case)),
         "python-equal-length-temporaries" => Some(crate::engine::replay_leg::<Temporaries>(case)),
         "offsets-beyond-2^32" => Some(crate::engine::replay_leg::<Far>(case)),
         "giant-python" => Some(crate::engine::replay_leg::<GiantPython>(case)),
